@@ -682,7 +682,9 @@ def rules(tier):
             # C14-ea: the saved position is the base-structure probability
             ('C14.R21', _shared_rule('c08', 'r4_saved_position')),
             # C14-eb: --all_lower also lower-cases the keyboard-walk terminals
-            ('C14.R22', _shared_rule('plumbing', 'terminals_stored_as_read'))]
+            ('C14.R22', _shared_rule('plumbing', 'terminals_stored_as_read')),
+            # C14-fb: the save made on exhaustion written before max_probability is moved below every pre-terminal
+            ('C14.R23', _shared_rule('c08', 'r28_exhausted_session_restores_nothing'))]
 
 
 META = {
